@@ -7,7 +7,7 @@ from ..sm import NONE, fmt_mask
 from ..smimpl import index, impl_methods, field_effects
 from ..astlib import walk
 from ..tagsem import Interp, tag_variants, or_chain_tags, OTHER, EMPTY, Sym
-from ..mirlib import load, callee_key
+from ..mirlib import load, callee_key, guarding_branches
 from ..facts import EngineError, VERIF
 from . import shared, shared_mir as sm
 
@@ -416,6 +416,19 @@ def run(ctx):
         r.inst(fn)
         if not any(w[1] and w[1][-1] == "Lexer.current_tag_token" and var in w[2] for w in ws):
             r.violate(fn, f"Lexer::{fn} does not create a fresh {var} outline", f.loc())
+
+    # ------------------------------------------------------------------ R03.7
+    r = ctx.rule("R03.7", "a self-closing start tag opens no namespace scope (WHATWG: the element is popped at once, so `<svg/>`, `<math/>`, `<title/>` in SVG … leave the insertion mode as it was): every TreeBuilderSimulator::enter_ns reached from start-tag feedback is control-dependent on the tag's self_closing flag; leave_ns on a start tag needs no such test", "E-MIR control dependence", floor=4)
+    for f, bi, t in mir.callers_of(r"TreeBuilderSimulator::enter_ns$"):
+        if mir.is_test_fn(f):
+            continue
+        nsarg = f.deep(t["args"][1]).split("::")[-1].split(":")[0].strip("{} ")
+        key = "enter_ns|" + f.key + "|" + nsarg
+        guards = [f.deep(f.blocks[sb]["term"]["d"]) for sb in guarding_branches(f, bi)]
+        ok = any("self_closing" in g for g in guards)
+        r.inst(key, sample={"fn": f.key, "namespace": nsarg, "guards": [g[:70] for g in guards]})
+        if not ok:
+            r.violate(key, f"{f.key} enters namespace {nsarg} for a start tag without testing its self-closing flag: after a self-closing tag the simulator stays in that namespace, so text-mode switches (<textarea>, <style>, <script>…), CDATA permission and namespace_uri() differ from a WHATWG parser until a matching end tag happens to follow", f.loc())
 
     ctx.not_decided += ["tree-builder simulation beyond the tables (arbitrary mis-nesting in foreign content)", "hash collisions of LocalNameHash", "full token-boundary equivalence with the WHATWG tokenizer is rule R03.1 (product exploration), reported separately when present"]
     return ("Automaton-level dataflow of the text type over all %d states (every literal transition into a text state and every tag emission), "
